@@ -59,6 +59,10 @@ def logical_lines(text):
         i += 1
         if not ln.strip():
             continue
+        if ln[0] in ' \t':
+            # SHELXL: a line that begins with a blank is a comment unless the line before it ended in '=' (those are
+            # consumed below). Content that the writer leaves on such a line is lost for every reader.
+            continue
         head = ln.lstrip()[:4].upper()
         if not head.startswith(('REM', 'TITL')):
             ln = ln.split('!')[0]
@@ -356,8 +360,8 @@ def model_request(a):
         kind = {'atom-iso': 'iso', 'atom-aniso': 'aniso', 'qpeak': 'qpeak'}[a['cls']]
         v = list(vals)
         v[3] = a['sof']
-        if any(abs(c) > 4 for c in v[:3]):
-            return None     # coordinate codes: see known finding / is_atom (C03)
+        if any(c > 4 for c in v[:3]):
+            return None     # a positive coordinate code: is_atom() keeps the line as text (C03), no atom printer involved
         if kind == 'iso' and len(v) != 5 or kind == 'aniso' and len(v) != 10 or kind == 'qpeak' and len(v) != 6:
             return None
         return dict(p='C01', op='atom', kind=kind, name=a['toks'][0][:4], sfac=int(num(a['sfac'])), vals=v)
@@ -600,8 +604,26 @@ def rand_sof(rng):
     return f'{v:.{rng.choice([5, 5, 4, 6, 2])}f}'
 
 
+def code_coords(rng, xyz):
+    """give one, two or three of the coordinates a free-variable code 10m+p (m = 1: fixed), a different m per slot so
+    that a code ending up in the wrong slot is visible. Negative codes -(10m+p) are parsed as atoms by the library,
+    positive ones are kept as text lines (is_atom) — both must come back."""
+    slots = rng.sample([0, 1, 2], rng.choice([1, 1, 2, 3]))
+    ms = rng.sample([1, 2, 3, 4, 6, 9], 3)
+    negative = rng.random() < 0.7
+    out = list(xyz)
+    for k in slots:
+        p = abs(float(xyz[k])) % 1.0
+        nd = len(xyz[k].split('.')[1]) if '.' in xyz[k] else 0
+        v = 10 * ms[k] + p
+        out[k] = f'{-v if negative else v:.{min(nd, 6)}f}'
+    return out
+
+
 def rand_atom_line(rng, name, sfac, aniso, hydrogen=False, qpeak=False):
     xyz = [rand_coord(rng) for _ in range(3)]
+    if not qpeak and rng.random() < 0.12:
+        xyz = code_coords(rng, xyz)
     sep = lambda: ' ' * rng.choice([1, 2, 3, 4])
     if qpeak:
         xyz = [f'{float(x):.4f}' for x in xyz]
@@ -632,7 +654,7 @@ def make_file(rng, instr_pool=None, n_instr=None):
     for op in rng.sample(gen.SYMM_OPS, rng.randint(0, 4)):
         lines.append('SYMM ' + op)
     # SFAC: 1..n lines, plain and explicit
-    els = rng.sample(gen.ELEMENTS, rng.randint(1, 6))
+    els = rng.sample(gen.ELEMENTS, rng.choice([1, 2, 3, 4, 5, 6, 6, 12, 16, 18]))
     k = 0
     nsf = 0
     while k < len(els):
@@ -644,7 +666,7 @@ def make_file(rng, instr_pool=None, n_instr=None):
             k += 1
             nsf += 1
         else:
-            n = rng.randint(1, len(els) - k)
+            n = rng.randint(1, len(els) - k) if rng.random() < 0.6 else len(els) - k
             lines.append('SFAC ' + rng.choice([' ', '  ']).join(els[k:k + n]))
             k += n
             nsf += n
@@ -662,17 +684,31 @@ def make_file(rng, instr_pool=None, n_instr=None):
     if n_instr is None:
         n_instr = rng.randint(3, 10)
     chosen = rng.sample(pool, min(n_instr, len(pool)))
+    chosen += gen.long_instructions(rng, rng.choice([0, 1, 1, 2]))
     tags = []
     atomsec = []
     for kw, form, ln in chosen:
         tags.append(f'form:{kw}:{form}')
+        if rng.random() < 0.06:      # keywords are case-insensitive
+            head, _, rest = ln.partition(' ')
+            ln = (head.lower() if rng.random() < 0.5 else head.capitalize()) + (' ' + rest if rest else '')
+            tags.append('keyword-case')
         if kw in ('SAME', 'MOVE', 'ANIS', 'SPEC', 'HFIX') and rng.random() < 0.5:
             atomsec.append(ln)
         else:
             lines.append(ln)
     # FVAR: 1..99 values over several lines
     nfv = rng.choice([1, 2, 3, 5, 7, 8, 9, 14, 15, 20, 33, 99])
-    fv = [f'{rng.uniform(0.05, 1.5):.{rng.choice([5, 5, 4, 6])}f}' for _ in range(nfv)]
+    style = rng.choice(['res', 'res', 'res', 'mixed', 'short', 'tiny'])
+    if style == 'res':          # as SHELXL writes them: five decimals
+        fv = [f'{rng.uniform(0.05, 1.5):.5f}' for _ in range(nfv)]
+    elif style == 'mixed':
+        fv = [f'{rng.uniform(0.05, 1.5):.{rng.choice([5, 5, 4, 6, 8])}f}' for _ in range(nfv)]
+    elif style == 'short':
+        fv = [f'{rng.uniform(0.05, 1.5):.{rng.choice([1, 2])}f}' for _ in range(nfv)]
+    else:                       # tiny / huge magnitudes, exponent notation
+        fv = [rng.choice([f'{rng.uniform(0.05, 1.5):.5f}', '0.00001', '1e-05', '123.45678', f'{rng.uniform(1, 9):.3f}e-3'])
+              for _ in range(nfv)]
     per = rng.choice([7, 7, 5, 3, 10])
     for i in range(0, nfv, per):
         lines.append('FVAR ' + rng.choice([' ', '   ']).join(fv[i:i + per]))
@@ -746,7 +782,7 @@ def run(ctx):
     ctx.extra['forms_total'] = len(forms)
     ctx.extra['forms_parsed_to_end'] = len(ok_forms) + sum(1 for f in forms if f[0] == 'HKLF')
     ctx.extra['forms_skipped'] = sorted({f'{f[0]}:{f[1]}' for f in forms if f not in ok_forms and f[0] != 'HKLF'})
-    n = ctx.budget(600, 40000)
+    n = 40000 if ctx.tier == 'thorough' else (6000 if ctx.escalated else 600)   # edited sources: ten times the files
     batch = []
     for i in range(n):
         # instruction forms that got through the parser on their own (values regenerated every 50 files)
